@@ -10,6 +10,12 @@ import jsgen
 import lib
 
 CORPUS = [
+    "var f = (n) => { return { value: n, twice: n * 2 }; }; print(JSON.stringify(f(2))); var g = () => { return {}; }; print(typeof g()); var h = (a, b) => { return a, b; }; print(h(1, 2)); var k = () => { return; }; print(k()); var m = async (x) => { return { x }; }; var q = (x) => ({ x }); print(q(1).x); var w = () => { return function () {}; }; print(typeof w());",
+    "var o = { 0x1F: 'a', 1_000: 'b', 0b101: 'c', 1e3: 'd', .5: 'e', 7: 'f', 0o17: 'g', 1n: 'h' }; print(Object.keys(o).join()); class K { 0x10() { return 1; } static 0b11 = 2; get 1e2() { return 3; } } print(new K()[16](), K[3], new K()[100]);",
+    "1..toString(); 5 .toString(); 1e21.toFixed(); 0x10.valueOf(); 1.5.toFixed(); 1['a']; 1n.toString();",
+    "var x = 1e999, y = -1e999, z = 1e308, w = 2e-7;",
+    "var a; (a) = function(){}; print(JSON.stringify(a.name)); a = function(){}; print(a.name); (a) = () => 1; print(JSON.stringify(a.name)); a = (function(){}); print(a.name);",
+    "var r = /a/yg; print(r.flags, /b/gimsuyd.flags);",
     # operator spacing: a printer that glues a sign to its operand turns `- -a` into a decrement
     "var a = 5, b = 5; print(- -a, + +a, -(-a), - - -a, ! !a, ~ ~a, typeof typeof a, void void 0, - +a, + -a, a - -a, a + +a, a - - -a); print(- --b, b, + ++b, b, - b--, b, + b++, b, a+++b, a---b, a + ++b, a - --b);",
     "var x = 1, y = 2; print(x++ + ++y, x-- - --y, x+ +y, x- -y, -x ** 2 === undefined, (-x) ** 2, (+y) ** -x, typeof -x, typeof +y, !-x, -!x, ~-x, -~x, 1 - -1, 1 + +1, 1 - - - 1);",
